@@ -42,7 +42,8 @@ HOSTILE = [0x01, 0x07, 0x08, 0x09, 0x0a, 0x0d, 0x1b, 0x1f, 0x7f, 0x80, 0x9b, 0xa
 def rand_member(r, hostile=False):
     lvl = r.choice([0, 1, 2, 3])
     kind = r.choice(["file"] * 5 + ["dir", "link"])
-    os_ = r.choice([0, ord("M"), ord("U"), ord("U"), ord("A"), ord("m"), ord("K"), ord("9"), ord("w"), ord(" "), 0x7e, 0xff])
+    # every OS type byte the tool has a name for, and some it has none for
+    os_ = r.choice([0, ord("U"), ord("U")] + [ord(c) for c in "MwW2CmJFRT9K3HaA "] + [0x7e, 0xff, ord("x"), ord("u"), 1])
     sizes = [0, 1, 5, 1000, 9999999, 10000000, 0x7FFFFFFF, 0x80000000, 0xFFFFFFFF]
     stamps = [0, 1, NOW - 15552000 - 1, NOW - 15552000, NOW - 15552000 + 1, NOW, NOW + 1, 0x7FFFFFFF, 0x80000000, 0xFFFFFFFF, r.getrandbits(32)]
 
